@@ -162,3 +162,10 @@ def run_driver(lines):
     if len(out) != len(lines):
         raise RuntimeError(f"driver answered {len(out)} lines for {len(lines)} requests")
     return out
+
+
+def leanchecker(mods):
+    """Independent re-check of the compiled .olean files (thorough tier)."""
+    t0 = time.time()
+    p = subprocess.run(["lake", "env", "leanchecker"] + list(mods), cwd=LEAN_DIR, capture_output=True, text=True)
+    return p.returncode == 0, (p.stdout + p.stderr)[-1500:], time.time() - t0
